@@ -31,12 +31,12 @@ Init ==
                sg \in Signs, ws \in WideSame, d \in Starts \cap (0 .. (2 ^ W - 1))}
   /\ inp = <<>> /\ out = <<>>
 
-MkIn(s, end, mode, c, pool, wait, mi, g) ==
+MkIn(s, end, mode, c, pool, wait, mi, g, clamp) ==
   [sg |-> s.sg, tmin |-> TMin(s.sg), tmax |-> TMax(s.sg),
    wmin |-> IF s.ws THEN TMin(s.sg) ELSE (IF s.sg THEN -Big ELSE 0),
    wmax |-> IF s.ws THEN TMax(s.sg) ELSE Big,
    start |-> s.start, end |-> end, mode |-> mode, c |-> c, mt |-> pool[2], wait |-> wait,
-   mi |-> mi, g |-> g, N |-> pool[1], l3 |-> L3, gspan |-> GSpan, rec |-> FALSE]
+   mi |-> mi, g |-> g, N |-> pool[1], l3 |-> L3, gspan |-> GSpan, rec |-> FALSE, clamp |-> clamp]
 
 \* R1: inputs the documentation allows.  The range size must fit the wide signed type
 \* (ChunkedRange: "I do not expect ranges larger than can be held in int64_t").
@@ -49,9 +49,10 @@ Eval ==
   /\ \E len \in Lens, mode \in Modes, pool \in Pools, wait \in Waits :
        \E c \in (IF mode = "chunk" THEN {x \in Chunks : x <= TMax(seed.sg)} ELSE {0}),
           mi \in MinItems,
-          g \in (IF mode = "chunk" THEN {1} ELSE Grans) :
+          g \in (IF mode = "chunk" THEN {1} ELSE Grans),
+          clamp \in (IF mode = "chunk" THEN BOOLEAN ELSE {FALSE}) :
          \* (bound with \E over singleton sets: TLC re-evaluates action-level LET definitions at every use)
-         \E in \in {MkIn(seed, seed.start + len, mode, c, pool, wait, mi, g)} :
+         \E in \in {MkIn(seed, seed.start + len, mode, c, pool, wait, mi, g, clamp)} :
            \E o \in {ParForOutcome(in)} :
              /\ Allowed(seed, in.end)
              /\ inp' = in
@@ -79,7 +80,7 @@ AllLens    == (-1) .. (2 ^ W - 1)
 EdgeOffsets == {0, 1, 3, 2 ^ (W - 1) - 3, 2 ^ (W - 1), 2 ^ (W - 1) + 2}
                \cup {2 ^ W - 1 - d : d \in {1, 2, 5, 6, 9, 14, 21, 30}}
 PoolsQ == {<<1, 1000>>, <<2, 2>>, <<3, 1000>>}
-EdgeOffsetsQ == {0, 2 ^ (W - 1) - 3, 2 ^ W - 31, 2 ^ W - 6, 2 ^ W - 2}
-EdgeLensQ == {0, 1, 2, 5, 14, 29, 30, 2 ^ W - 1}
+EdgeOffsetsQ == {0, 3, 2 ^ (W - 1) - 3, 2 ^ W - 31, 2 ^ W - 15, 2 ^ W - 6, 2 ^ W - 2}
+EdgeLensQ == {-1, 0, 1, 2, 5, 13, 14, 29, 30, 2 ^ W - 1}
 EdgeLens == {-1, 0, 1, 2, 3, 5, 8, 13, 21, 2 ^ (W - 1) - 1, 2 ^ (W - 1), 2 ^ W - 2, 2 ^ W - 1}
 =============================================================================
